@@ -5,9 +5,13 @@ import AsynqModel.Lib.Threads
   (case threads <id> inv 0 0 0)            followed by (inv <module> <name> <kind>) lines (the AST inventory) and
                                            (probe <module> <name>) lines (the carriers the run-time probes exercise)
   (case threads <id> hist|prog <K> <perf> <reps>)
+     (alien <t> <i>)          thread t was NOT created through threading.Thread; i = its OS thread ident (class number)
+     (mode <t> <b>)           thread t was started with a copy of a context whose asyncio-mode flag was b
      (a <t> <op> <obs>)       records of thread t running alone, in order
      (c <r> <t> <op> <obs>)   records of concurrent repetition r, in global order (= the schedule)
   A record that mentions the token 999999 (the harness met an object the thread did not create) has observation `foreign`.
+  `(foreign <obs>)` = the same, with what the thread was handed spelled out in the numbering of the thread that created
+  it: the property sees `foreign`, the correspondence compares <obs> with the model (which mirrors the code).
 -/
 namespace AsynqModel.Drv.Threads
 open AsynqModel AsynqModel.Threads
@@ -90,9 +94,25 @@ def obs (s : Sexp) : Obs :=
     | _ => none
   r.getD .other
 
+/-- the observation the correspondence compares: what is inside a `(foreign ..)` wrapper -/
+def obsCorr (s : Sexp) : Obs :=
+  match s with
+  | .list [.atom "foreign", inner] => obs inner
+  | _ => obs s
+
+/-- the observation the property sees -/
+def obsSpec (op ob : Sexp) : Obs :=
+  match ob with
+  | .list (.atom "foreign" :: _) => .foreign
+  | _ => if mentionsForeign op then .foreign else obs ob
+
 structure Parsed where
   aloneRecs : Array (List Rec)              -- reversed while parsing
   conc : Array (List (ThreadId × Rec))      -- per repetition, reversed while parsing
+  aloneCorr : Array (List Rec)              -- the same records as the correspondence compares them
+  concCorr : Array (List (ThreadId × Rec))
+  aliens : List (ThreadId × Nat)
+  modes : List (ThreadId × Bool)
   inv : List (String × String × String)
   probed : List (String × String)
   bad : Nat
@@ -102,21 +122,34 @@ def pushAt {α : Type} (a : Array (List α)) (i : Nat) (x : α) : Array (List α
   a.modify i (x :: ·)
 
 def parseBody (k reps : Nat) (body : List Sexp) : Parsed :=
-  let p0 : Parsed := { aloneRecs := Array.replicate k [], conc := Array.replicate reps [], inv := [], probed := [], bad := 0 }
+  let p0 : Parsed := { aloneRecs := Array.replicate k [], conc := Array.replicate reps [],
+                       aloneCorr := Array.replicate k [], concCorr := Array.replicate reps [], aliens := [], modes := [],
+                       inv := [], probed := [], bad := 0 }
   let p := body.foldl (fun p s =>
     match s with
     | .list [.atom "a", t, op, ob] =>
       match t.nat?, op? op with
-      | some t, some o => { p with aloneRecs := pushAt p.aloneRecs t (o, if mentionsForeign op then .foreign else obs ob) }
+      | some t, some o => { p with aloneRecs := pushAt p.aloneRecs t (o, obsSpec op ob),
+                                   aloneCorr := pushAt p.aloneCorr t (o, if mentionsForeign op then .foreign else obsCorr ob) }
       | _, _ => { p with bad := p.bad + 1 }
     | .list [.atom "c", r, t, op, ob] =>
       match r.nat?, t.nat?, op? op with
-      | some r, some t, some o => { p with conc := pushAt p.conc r (t, (o, if mentionsForeign op then .foreign else obs ob)) }
+      | some r, some t, some o => { p with conc := pushAt p.conc r (t, (o, obsSpec op ob)),
+                                           concCorr := pushAt p.concCorr r (t, (o, if mentionsForeign op then .foreign else obsCorr ob)) }
       | _, _, _ => { p with bad := p.bad + 1 }
+    | .list [.atom "alien", t, i] =>
+      match t.nat?, i.nat? with
+      | some t, some i => { p with aliens := p.aliens ++ [(t, i)] }
+      | _, _ => { p with bad := p.bad + 1 }
+    | .list [.atom "mode", t, b] =>
+      match t.nat?, b.bool? with
+      | some t, some b => { p with modes := p.modes ++ [(t, b)] }
+      | _, _ => { p with bad := p.bad + 1 }
     | .list [.atom "inv", .atom m, .atom n, .atom kd] => { p with inv := (m, n, kd) :: p.inv }
     | .list [.atom "probe", .atom m, .atom n] => { p with probed := (m, n) :: p.probed }
     | _ => { p with bad := p.bad + 1 }) p0
-  { p with aloneRecs := p.aloneRecs.map List.reverse, conc := p.conc.map List.reverse, inv := p.inv.reverse }
+  { p with aloneRecs := p.aloneRecs.map List.reverse, conc := p.conc.map List.reverse,
+           aloneCorr := p.aloneCorr.map List.reverse, concCorr := p.concCorr.map List.reverse, inv := p.inv.reverse }
 
 def recStr (r : Rec) : String := s!"{repr r.1} -> {repr r.2}"
 
@@ -138,17 +171,25 @@ def diffGlobal (m i : List (ThreadId × Rec)) (n : Nat := 0) : Option String :=
 
 def firstSome {α : Type} (l : List (Option α)) : Option α := l.findSome? id
 
-def describeSpec (k : Nat) (aloneRecs : List (List Rec)) (conc : List (ThreadId × Rec)) : String :=
+def describeSpec (perf : Bool) (k : Nat) (aloneRecs : List (List Rec)) (conc : List (ThreadId × Rec)) : String :=
+  let sh (x : Option Rec) := match x with | some r => recStr r | none => "<end>"
   match conc.find? fun p => p.2.2 == Obs.foreign with
   | some (t, r) => s!"thread {t} concurrent [{repr r.1}] mentions an object of another thread"
   | none =>
-  match specFind aloneRecs conc k with
-  | none => ""
-  | some (t, i, _) =>
-    let a := (ownPrefix (aloneRecs.getD t []))[i]?
-    let c := (ownPrefix (proj t conc))[i]?
-    let sh (x : Option Rec) := match x with | some r => recStr r | none => "<end>"
-    s!"thread {t} record {i}: alone [{sh a}] concurrent [{sh c}]"
+  match specFind perf aloneRecs conc k with
+  | some (t, i, c) =>
+    if c == "operations" then s!"thread {t} performed other operations than alone"
+    else
+      let a := (strictPart perf (aloneRecs.getD t []))[i]?
+      let c := (strictPart perf (proj t conc))[i]?
+      s!"thread {t} record {i} (not counting operations on shared objects): alone [{sh a}] concurrent [{sh c}]"
+  | none =>
+    match fullFind aloneRecs conc k with
+    | none => ""
+    | some t =>
+      match diffRecs (aloneRecs.getD t []) (proj t conc) with
+      | some d => s!"thread {t} (uses an object shared with other threads) {d} [model = alone, impl = concurrent]"
+      | none => ""
 
 def handleInv (id : Nat) (p : Parsed) : String :=
   let probs := inventoryProblems p.inv p.probed
@@ -170,24 +211,27 @@ def handle (id : Nat) (hdr : List Sexp) (body : List Sexp) : String :=
       if kind == "inv" then handleInv id p else
       let aloneImpl := p.aloneRecs.toList
       let concs := p.conc.toList
-      -- correspondence: the model on the same operations makes the same observations
-      let corrAlone := firstSome ((List.range aloneImpl.length).map fun t =>
-        let impl := aloneImpl.getD t []
-        (diffRecs (aloneOn perf t (impl.map (·.1))) impl).map fun s => s!"alone thread {t} {s}")
-      let corrConc := firstSome ((List.range concs.length).map fun r =>
-        let impl := concs.getD r []
-        (diffGlobal (inter perf (impl.map fun x => (x.1, x.2.1))) impl).map fun s => s!"concurrent run {r} {s}")
+      let aloneC := p.aloneCorr.toList
+      let concsC := p.concCorr.toList
+      -- correspondence: the model (the library as written, with the thread kinds and start contexts of the case) on
+      -- the same operations makes the same observations.  The run alone of a thread is made by a threading.Thread.
+      let corrAlone := firstSome ((List.range aloneC.length).map fun t =>
+        let impl := aloneC.getD t []
+        (diffRecs (aloneW [] p.modes perf t (impl.map (·.1))) impl).map fun s => s!"alone thread {t} {s}")
+      let corrConc := firstSome ((List.range concsC.length).map fun r =>
+        let impl := concsC.getD r []
+        (diffGlobal (interW p.aliens p.modes perf (impl.map fun x => (x.1, x.2.1))) impl).map fun s => s!"concurrent run {r} {s}")
       let corr := if p.bad > 0 then some s!"{p.bad} unparsable lines" else corrAlone <|> corrConc
       -- the property on the implementation's records alone
-      let specs := concs.map fun c => specClause k aloneImpl c
+      let specs := concs.map fun c => specClause perf k aloneImpl c
       let spec := (specs.find? (· != "ok")).getD "ok"
       let specD := firstSome (concs.map fun c =>
-        let d := describeSpec k aloneImpl c
+        let d := describeSpec perf k aloneImpl c
         if d.isEmpty then none else some d)
-      -- the property on the model's records (what the theorem says)
+      -- the property on the model's records (what the theorems say: `C16_spec_holds_library`)
       let specms := concs.map fun c =>
         let sch := c.map fun x => (x.1, x.2.1)
-        specClause k ((List.range k).map fun t => proj t (inter perf (only t sch))) (inter perf sch)
+        specClause perf k ((List.range k).map fun t => proj t (interW p.aliens p.modes perf (only t sch))) (interW p.aliens p.modes perf sch)
       let specm := (specms.find? (· != "ok")).getD "ok"
       let c := match corr with | none => "ok" | some _ => "diff"
       let f (s : String) := if s == "ok" then "ok" else "fail:" ++ s
